@@ -620,6 +620,30 @@ fn run_values(ctx: &mut Ctx) {
                 ctx.case(&desc, |ctx| check_control(ctx, &m, &desc));
             }
         }
+        // long AVP lists (menu cycled) and totals octet by octet across 255/256/257
+        for n in [5usize, 8, 9, 16, 17, 32, 33, 64, 65, 100, 255, 256, 257, 300] {
+            if !ctx.mine() {
+                continue;
+            }
+            ctx.states += 1;
+            ctx.transitions += 1;
+            let mut avps = vec![mt.clone()];
+            avps.extend((0..n).map(|i| menu[(i * 7 + 1) % 39].clone()));
+            let m = ctl(gen::TID, gen::SID, gen::NS, gen::NR, 0, avps);
+            let desc = || json!({"kind":"longlist","n":n});
+            ctx.case(&desc, |ctx| check_control(ctx, &m, &desc));
+        }
+        for filler in 1..=60usize {
+            if !ctx.mine() {
+                continue;
+            }
+            ctx.states += 1;
+            ctx.transitions += 1;
+            // 12 + 8 + 200 + (6 + filler): 226 + filler covers 227..=286
+            let m = ctl(gen::TID, gen::SID, gen::NS, gen::NR, 0, vec![mt.clone(), SAvp::Plain { attr: 7, val: SVal::Bytes(ramp(194)) }, SAvp::Plain { attr: 11, val: SVal::Bytes(ramp(filler)) }]);
+            let desc = || msg_json(&m);
+            ctx.case(&desc, |ctx| check_control(ctx, &m, &desc));
+        }
         // message totals octet by octet across the 65535 limit: 12 + 8 + 63*1023 = 64469; a
         // 64th maximal AVP gives 65492; fillers of 7.. octets step through 65529..65550
         for filler in 0..=70usize {
@@ -803,6 +827,15 @@ fn replay_values(ctx: &mut Ctx, v: &Value) {
                 SMessage::Control { .. } => ctx.case(&desc, |ctx| check_control(ctx, &m, &desc)),
                 SMessage::Data { .. } => ctx.case(&desc, |ctx| check_data(ctx, &m)),
             };
+        }
+        Some("longlist") => {
+            let n = v["n"].as_u64().unwrap_or(5) as usize;
+            let menu = vgen::list_menu();
+            let mut avps = vec![SAvp::Plain { attr: 0, val: SVal::MessageType(1) }];
+            avps.extend((0..n).map(|i| menu[(i * 7 + 1) % 39].clone()));
+            let m = ctl(gen::TID, gen::SID, gen::NS, gen::NR, 0, avps);
+            let desc = || v.clone();
+            ctx.case(&desc, |ctx| check_control(ctx, &m, &desc));
         }
         Some("block32") => {
             let attr = v["attr"].as_u64().unwrap_or(3) as u16;
